@@ -19,7 +19,7 @@ Record c18_listen_case := LC {
 }.
 
 (** strict replay returning the index of the first label the model refuses *)
-Fixpoint replay_idx (dec : N -> option N) (c : cfg) (s : lstate) (ls : list label) (k : nat) : lstate + nat :=
+Fixpoint replay_idx (dec : notif -> option (N * option N)) (c : cfg) (s : lstate) (ls : list label) (k : nat) : lstate + nat :=
   match ls with
   | [] => inl s
   | l :: ls' => match lstep dec c s l with Some s' => replay_idx dec c s' ls' (S k) | None => inr k end
@@ -32,7 +32,7 @@ Definition pc_done (p : lpc) : bool := match p with PDone => true | _ => false e
     1 replies read, 2 buffered rest, 4 consumed/acked, 8 channel closed, 16 hook count,
     32 finished-or-not, 64 the model's listener can still move where the implementation is parked *)
 Definition c18_listen_code (k : c18_listen_case) : nat :=
-  let dec := tab_lookup (lc_dec k) in
+  let dec := unm_json (tab_lookup (lc_dec k)) in
   match replay_idx dec (lc_cfg k) (linit (lc_stream k)) (lc_sched k) 0 with
   | inr i => 1000 + i
   | inl s =>
@@ -48,7 +48,7 @@ Definition c18_listen_code (k : c18_listen_case) : nat :=
 
 (** 0 = accepted; 1 = safety clause rejected; 2 = liveness clause rejected; 3 = both *)
 Definition c18_listen_verdict (k : c18_listen_case) : nat :=
-  let dec := tab_lookup (lc_dec k) in
+  let dec := unm_json (tab_lookup (lc_dec k)) in
   (if safe_ok dec (lc_cfg k) (lc_stream k) (lc_obs k) then 0 else 1)
   + (if live_ok (lc_cfg k) (lc_obs k) then 0 else 2).
 
@@ -126,13 +126,13 @@ Record c18_caller_case := CC {
   cc_end : nat
 }.
 
-Fixpoint creplay_idx (dec : N -> option N) (c : cfg) (a : api) (s : cstate) (ls : list clabel) (k : nat) : cstate + nat :=
+Fixpoint creplay_idx (dec : notif -> option (N * option N)) (c : cfg) (a : api) (s : cstate) (ls : list clabel) (k : nat) : cstate + nat :=
   match ls with
   | [] => inl s
   | l :: ls' => match cstep dec c a s l with Some s' => creplay_idx dec c a s' ls' (S k) | None => inr k end
   end.
 
-Definition kp_code (dec : N -> option N) (s : cstate) : nat :=
+Definition kp_code (dec : notif -> option (N * option N)) (s : cstate) : nat :=
   match kp s with
   | KUser => 0
   | KReturned (OReply r) => match got (lsys s) with [r'] => if reply_eqb r r' then 1 else 9 | _ => 9 end
@@ -145,7 +145,7 @@ Definition kp_code (dec : N -> option N) (s : cstate) : nat :=
     differently; otherwise the bit set of [c18_listen_code] for the listener part *)
 Definition c18_caller_code (k : c18_caller_case) : nat :=
   let lc := cc_listen k in
-  let dec := tab_lookup (lc_dec lc) in
+  let dec := unm_json (tab_lookup (lc_dec lc)) in
   match creplay_idx dec (lc_cfg lc) (cc_api k) (cinit (lc_stream lc)) (cc_sched k) 0 with
   | inr i => 1000 + i
   | inl s =>
